@@ -218,6 +218,7 @@ class KaniUnit:
                                timeout=self.timeout_s * (1 + len(names) // max(2, self.jobs)) + 900)
             except subprocess.TimeoutExpired:
                 _kill_cbmc_under(self.dir())
+        _reap_orphan_solvers()
         text = open(outp, errors="replace").read()
         self.wall = time.time() - t0
         self.cmd = " ".join(cmd)
@@ -256,6 +257,21 @@ class KaniUnit:
             if i < len(ob.inputs):
                 v["name"] = ob.inputs[i]
         return vals
+
+
+def _reap_orphan_solvers():
+    """Kani's --harness-timeout kills cbmc but not the z3 it spawned for the SMT back end: the solver is re-parented to
+    init and keeps a core busy for hours. Kill z3 processes that (a) work on one of CBMC's temporary problem files and
+    (b) have lost their parent."""
+    r = subprocess.run(["pgrep", "-x", "z3"], capture_output=True, text=True)
+    for pid in r.stdout.split():
+        try:
+            args = open("/proc/%s/cmdline" % pid, "rb").read().decode(errors="replace")
+            ppid = int(re.search(r"^PPid:\s*(\d+)", open("/proc/%s/status" % pid).read(), re.M).group(1))
+        except (OSError, AttributeError, ValueError):
+            continue
+        if "smt2_dec_problem" in args and ppid == 1:
+            subprocess.run(["kill", "-9", pid])
 
 
 def _kill_cbmc_under(d):
